@@ -6,7 +6,7 @@
    first-order expansion, and below the clip of save_exp (argument <= 20); the bound
    next to the singularity is C04_efun_near_singularity. *)
 From Coq Require Import Reals.
-From JV Require Import Prim RLemmas GChannels GSynapses GateGeneric ChannelFacts Published PublishedFacts PublishedRefuted.
+From JV Require Import Prim RLemmas GChannels GSynapses GateGeneric ChannelFacts Published PublishedFacts PublishedRefuted ClipTails.
 Local Open Scope R_scope.
 
 Theorem C04_HH_rates : forall v, -150 <= v <= 100 ->
@@ -68,6 +68,29 @@ Proof. exact CaT_tau_u_pub. Qed.
 Theorem C04_CaT_tau_u_refuted :
   exists v vx, -150 <= v <= 100 /\ Rabs (CaT_u_gate__b v vx - Pub.CaT_tau_u v vx) > 1 / 5.
 Proof. exact CaT_tau_u_refuted. Qed.
+(* F15 bounded: beyond the clip both values lie in (30.8, 31.08] ms; the deviation is at most
+   0.28 ms (0.9 %) *)
+Theorem C04_CaT_tau_u_bounded : forall v vx, -20 <= v + vx ->
+  Rabs (CaT_u_gate__b v vx - Pub.CaT_tau_u v vx) <= 28 / 100 /\
+  154 / 5 < CaT_u_gate__b v vx <= 154 / 5 + 28 / 100 /\ 154 / 5 < Pub.CaT_tau_u v vx <= 154 / 5 + 28 / 100.
+Proof. exact CaT_tau_u_tail. Qed.
+
+(* the clipped tails: where the hypothesis "exponent <= 20" of an equality theorem above fails
+   (exponents between 20 and 100, i.e. far beyond [-150, 100] mV for the default shifts), the
+   rate is within 1e-6 /ms (sigmoid-type rates: 1e-8) of the published value *)
+Theorem C04_clipped_tails : forall v vt vx,
+  (20 <= - (1 / 4) * (v - vt - 13) <= 100 -> Rabs (Na_m_gate__a v vt - Pub.Na_alpha_m v vt) <= 1 / 1000000) /\
+  (20 <= 1 / 5 * (v - vt - 40) <= 100 -> Rabs (Na_m_gate__b v vt - Pub.Na_beta_m v vt) <= 1 / 1000000) /\
+  (20 <= - (v - vt - 40) / 5 -> Rabs (Na_h_gate__b v vt - Pub.Na_beta_h v vt) <= 1 / 100000000) /\
+  (20 <= - (1 / 5) * (v - vt - 15) <= 100 -> Rabs (K_n_gate__a v vt - Pub.K_alpha_n v vt) <= 1 / 1000000) /\
+  (20 <= (- v - 27) / (19 / 5) <= 100 -> Rabs (CaL_q_gate__a v - Pub.CaL_alpha_q v) <= 1 / 1000000) /\
+  (-1 <= v + vx -> Rabs (CaT_u_gate__a v vx - Pub.CaT_u_inf v vx) <= 1 / 100000000).
+Proof.
+  intros v vt vx. repeat split.
+  - apply Na_alpha_m_tail. - apply Na_beta_m_tail. - apply Na_beta_h_tail.
+  - apply K_alpha_n_tail. - apply CaL_alpha_q_tail. - apply CaT_u_inf_tail.
+Qed.
+
 Theorem C04_CaT_current : forall u v gCaT vx eCa, -181 <= v + vx ->
   CaT_current__i u v gCaT vx eCa = Pub.CaT_current u v gCaT vx eCa.
 Proof. exact CaT_current_pub. Qed.
